@@ -4,9 +4,10 @@ set_option linter.unusedVariables false
 namespace TdModel.Rpc
 
 /-- `started` lists every call; the closed flag never resets; the close-context stays cancelled. -/
-def Listed (s : State) : Prop := ∀ i, s.calls i ≠ none → i ∈ s.started
+def Listed (s : State) : Prop :=
+  (∀ i, s.calls i ≠ none → i ∈ s.started) ∧ (∀ k, s.notifs k ≠ none → k ∈ s.nstarted)
 
-theorem listed_init : Listed init := by intro i h; simp [init] at h
+theorem listed_init : Listed init := by constructor <;> (intro i h; simp [init] at h)
 
 macro "listed_close" hg:term : tactic =>
   `(tactic| (simp [Listed, setCall, setNotif, finish, Call.finish, removeAck, exitAck, Call.exitLoop, Call.retC, newCall, Cfg.std_all $hg] <;>
@@ -16,28 +17,31 @@ macro "listed_close" hg:term : tactic =>
 theorem ack_domain {cfg : Cfg} (ids : List Nat) (s : State) :
     (stepAck cfg s ids).started = s.started ∧ (stepAck cfg s ids).closed = s.closed ∧
     (stepAck cfg s ids).reqC = s.reqC ∧ (stepAck cfg s ids).closers = s.closers ∧
+    (stepAck cfg s ids).notifs = s.notifs ∧ (stepAck cfg s ids).nstarted = s.nstarted ∧
     ∀ i, (stepAck cfg s ids).calls i = none ↔ s.calls i = none := by
   refine stepAck_induct cfg
     (P := fun t => t.started = s.started ∧ t.closed = s.closed ∧ t.reqC = s.reqC ∧ t.closers = s.closers ∧
-      ∀ i, t.calls i = none ↔ s.calls i = none) ?_ ids s ⟨rfl, rfl, rfl, rfl, fun _ => Iff.rfl⟩
-  intro t id ⟨h1, h2, h3, h4, h5⟩
+      t.notifs = s.notifs ∧ t.nstarted = s.nstarted ∧
+      ∀ i, t.calls i = none ↔ s.calls i = none) ?_ ids s ⟨rfl, rfl, rfl, rfl, rfl, rfl, fun _ => Iff.rfl⟩
+  intro t id ⟨h1, h2, h3, h4, h6, h7, h5⟩
   unfold ackOne
   by_cases hk : t.ack id = true
   · simp only [hk, if_true]
     cases hci : t.calls id with
-    | none => exact ⟨h1, h2, h3, h4, h5⟩
+    | none => exact ⟨h1, h2, h3, h4, h6, h7, h5⟩
     | some ci =>
       by_cases ha : ci.acked = true
-      · simp [ha, h1, h2, h3, h4, h5]
+      · simp [ha, h1, h2, h3, h4, h5, h6, h7]
       · simp only [ha, Bool.false_eq_true, if_false]
         refine ⟨by split <;> simp [setCall, removeAck, h1], by split <;> simp [setCall, removeAck, h2],
-          by split <;> simp [setCall, removeAck, h3], by split <;> simp [setCall, removeAck, h4], fun i => ?_⟩
+          by split <;> simp [setCall, removeAck, h3], by split <;> simp [setCall, removeAck, h4],
+          by split <;> simp [setCall, removeAck, h6], by split <;> simp [setCall, removeAck, h7], fun i => ?_⟩
         by_cases hid : i = id
         · subst hid
           have : s.calls i ≠ none := fun hn => by have := (h5 i).mpr hn; rw [hci] at this; cases this
           split <;> simp [setCall, removeAck, this]
         · split <;> simp [setCall, removeAck, hid, h5 i]
-  · simp only [hk]; exact ⟨h1, h2, h3, h4, h5⟩
+  · simp only [hk]; exact ⟨h1, h2, h3, h4, h6, h7, h5⟩
 
 set_option maxHeartbeats 4000000 in
 /-- One step: `Listed` is preserved, `closed` / `reqC` stay set. -/
@@ -130,9 +134,10 @@ theorem listed_step {cfg : Cfg} {s s' : State} {a : Action} (hg : cfg.std = true
       · simp at hs
   case ack ids =>
     cases hs
-    obtain ⟨h1, h2, h3, _, h5⟩ := ack_domain (cfg := cfg) ids s
-    refine ⟨fun i hi => ?_, by simp [h2], by simp [h3]⟩
-    rw [h1]; exact h i (fun hn => hi ((h5 i).mpr hn))
+    obtain ⟨h1, h2, h3, _, h6, h7, h5⟩ := ack_domain (cfg := cfg) ids s
+    refine ⟨⟨fun i hi => ?_, fun k hk => ?_⟩, by simp [h2], by simp [h3]⟩
+    · rw [h1]; exact h.1 i (fun hn => hi ((h5 i).mpr hn))
+    · rw [h7]; rw [h6] at hk; exact h.2 k hk
   case cancel j =>
     unfold stepCancel at hs
     split at hs
@@ -142,7 +147,7 @@ theorem listed_step {cfg : Cfg} {s s' : State} {a : Action} (hg : cfg.std = true
       · exact ⟨h, id, id⟩
   case advance d =>
     cases hs
-    refine ⟨fun i hi => h i ?_, id, id⟩
+    refine ⟨⟨fun i hi => h.1 i ?_, h.2⟩, id, id⟩
     simp [stepAdvance] at hi
     intro hn; simp [hn] at hi
   case close k => split at hs <;> simp at hs; subst hs; exact ⟨h, fun _ => rfl, id⟩
